@@ -308,6 +308,15 @@ def evaluate(case):
         ev.skipped = "solo-outcome-not-reproducible"
         return ev
 
+    # process-wide memo tables keyed by the kind of object seen last (dispatchers, registries) are part of the state a
+    # schedule starts from: when the workload mixes backends, the last validation before the scheduled run is one of the
+    # *other* backend than the thread that runs first, so that this thread starts "cold" with respect to such tables
+    first = schedule[0][0]
+    be = [work.backend_of(c) for c in w["calls"]]
+    if len(set(be)) > 1:
+        other = next((k for k in range(n) if be[k] != be[first]), None)
+        if other is not None:
+            _solo(w, other)
     _reset_config()
     twin_fps = _schema_fps(work.Objects(w, only_call=-1), w) if feats["model"] else None
     objs = work.Objects(w)
@@ -468,6 +477,8 @@ def _call(s, form, cols, **kw):
         c["data"]["index"] = kw.pop("index")
     if "mindex" in kw:
         c["data"]["mindex"] = kw.pop("mindex")
+    if "series" in kw:
+        c["data"]["series"] = kw.pop("series")
     c.update(kw)
     return c
 
@@ -513,6 +524,21 @@ def fixed_workloads():
     ], [
         _call(0, "pd", {"x": [1, 2]}, mindex={"arrays": [[1, 2], [1, 2], [3, 4]], "names": ["a", "a", None]}),
         _call(0, "pd", {"x": [5, 6]}, mindex={"arrays": [[-1, 2], [3, 4]], "names": ["a", None]}, lazy=True),
+    ]))
+    # a SeriesSchema whose Index component coerces, shared by calls that need the coercion
+    W.append(_wl("pd-shared-noop/series-index-coerce", [
+        _schema("pd", [_col("v", checks=gt0)], entry="series", index={"dt": "int64", "coerce": True, "checks": [["ge", 0]], "name": None}),
+    ], [
+        _call(0, "pd", {"v": [1, 2, 3]}, index=["10", "20", "30"], series=True),
+        _call(0, "pd", {"v": [4, 5]}, index=["1", "-2"], lazy=True, series=True),
+    ]))
+    # the same built-in checks dispatched for a pandas and for a polars object at the same time
+    W.append(_wl("pd+pl-distinct/shared-builtin-checks", [
+        _schema("pd", [_col("a", checks=[["gt", 0], ["lt", 100]])]),
+        _schema("pl", [_col("a", checks=[["gt", 0], ["lt", 100]])]),
+    ], [
+        _call(0, "pd", {"a": [1, 2]}),
+        _call(1, "pl_df", {"a": [3, 400]}, lazy=True),
     ]))
     # a model whose definition is broken (its first use raises SchemaInitError) next to a healthy model nobody has
     # compiled yet: the failing compilation must not keep anything (a lock, a half-built cache entry) from the other
@@ -605,7 +631,7 @@ def fixed_workloads():
     return W
 
 
-QUICK = 9
+QUICK = 11
 
 
 def _tier_workloads(tier):
